@@ -139,6 +139,13 @@ func c01Scenario(clients []gridClient, depth int) *explore.Scenario {
 				return
 			}
 			hrr := x.Choose("srv.hrr", 2) == 1
+			// the judged connection may be one that resumes: a PSK parrot with a TLS 1.3 session cached
+			// by a first, unedited connection (the pre_shared_key binder is computed over the edited hello)
+			resumed := x.Choose("resumed", 2) == 1
+			if resumed && (!g.PSK || hrr) {
+				r.Obs = "n/a"
+				return
+			}
 			var seq []c01Edit
 			for i := 0; i < depth; i++ {
 				k := x.Choose("edit", len(edits)+1)
@@ -176,12 +183,22 @@ func c01Scenario(clients []gridClient, depth int) *explore.Scenario {
 				}
 				scfg.CurvePreferences = []tls.CurveID{tls.CurveID(grp)}
 			}
-			what := fmt.Sprintf("%s edits=%v hrr=%v", g.Name, names, hrr)
+			what := fmt.Sprintf("%s edits=%v hrr=%v resumed=%v", g.Name, names, hrr, resumed)
 			var rawAtStart []byte
 			var u *tls.UConn
 			skip := false
 			prep := g.prepare()
-			hs := peer.Run(g.config("example.com"), g.ID, scfg, peer.Opts{
+			ccfg := g.config("example.com")
+			if resumed {
+				ccfg.ClientSessionCache = tls.NewLRUClientSessionCache(4)
+				scfg.MinVersion = tls.VersionTLS13
+				c0 := *ccfg
+				if w := peer.Run(&c0, g.ID, scfg, peer.Opts{Prepare: g.prepare(), Echo: true}); !w.OK() {
+					r.Obs = "first-connection-failed"
+					return
+				}
+			}
+			hs := peer.Run(ccfg, g.ID, scfg, peer.Opts{
 				WrapClient: func(e *peer.Endpoint) {
 					e.OnWrite = func(n int, b []byte) {
 						if n == 0 && u != nil && u.HandshakeState.Hello != nil {
@@ -207,7 +224,7 @@ func c01Scenario(clients []gridClient, depth int) *explore.Scenario {
 								for _, ex := range uc.Extensions {
 									ts = append(ts, fmt.Sprintf("%T", ex))
 								}
-								x.State(fmt.Sprintf("%s|%d|%d|%x|%v", g.Name, len(uc.HandshakeState.Hello.CipherSuites), len(uc.HandshakeState.Hello.SessionId), uc.HandshakeState.Hello.Random[:2], ts))
+								x.State(fmt.Sprintf("%s|%v|%d|%d|%x|%v", g.Name, resumed, len(uc.HandshakeState.Hello.CipherSuites), len(uc.HandshakeState.Hello.SessionId), uc.HandshakeState.Hello.Random[:2], ts))
 							}
 						}()
 						if err := e.apply(uc); err != nil {
@@ -287,6 +304,12 @@ func c01Scenario(clients []gridClient, depth int) *explore.Scenario {
 					r.Violate("INFRA|c01-hrr-expected", "%s: HRR server but %d hellos", what, len(msgs))
 				}
 			}
+			if resumed {
+				r.Count("resumed_runs", 1)
+				if hs.CErr == nil && hs.U.ConnectionState().DidResume {
+					r.Count("resumed_and_did_resume", 1)
+				}
+			}
 			r.Obs = fmt.Sprintf("hellos=%d|done=%v|viol=%d", len(msgs), hs.CErr == nil, len(r.Viol))
 			if len(seq) == depth && hrr {
 				r.Sample = map[string]any{"client": g.Name, "edits": names, "hrr": hrr, "hellos_on_wire": len(msgs), "handshake_error": fmt.Sprint(hs.CErr)}
@@ -306,7 +329,7 @@ func c01Scenarios(thorough bool) []*explore.Scenario {
 func init() {
 	register(&Prop{ID: "C01", Level: "model_checking", Variant: "A", Scenarios: c01Scenarios,
 		Run: func(c *explore.Check, thorough bool) {
-			c.Rule = "every non-Golang ID, randomized seeds and custom specs (+ fingerprinted copies in thorough) x every sequence of <=2 (3) documented mutators (SetClientRandom, SetSNI, CipherSuites drop/append, SessionId pattern/empty, Extensions append/remove/edit, a second BuildHandshakeState) applied between BuildHandshakeState and Handshake x server {plain, HRR-forcing}: (1) first ClientHello on the wire == Hello.Raw read at the first write, (2) the last edit of each field is visible to the strict parser, (3) after Handshake Hello.Raw == the last ClientHello sent. distinct = (client, edit sequence, server, hellos sent)"
+			c.Rule = "every non-Golang ID, randomized seeds and custom specs (+ fingerprinted copies in thorough) x every sequence of <=2 (3) documented mutators (SetClientRandom, SetSNI, CipherSuites drop/append, SessionId pattern/empty, Extensions append/remove/edit, a second BuildHandshakeState) applied between BuildHandshakeState and Handshake x server {plain, HRR-forcing} x {fresh connection, PSK parrot resuming a cached TLS 1.3 session}: (1) first ClientHello on the wire == Hello.Raw read at the first write, (2) the last edit of each field is visible to the strict parser, (3) after Handshake Hello.Raw == the last ClientHello sent. distinct = (client, edit sequence, server, hellos sent)"
 			c.Assumptions = []string{"Hello.Raw 'as rebuilt at handshake start' is read by the transport's first-write callback on the handshaking goroutine"}
 			runAll(c, c01Scenarios(thorough), 0)
 			c.Gate(c.Total.Counters["hrr_completed"] > 100, "non-vacuity: %d completed HRR handshakes", c.Total.Counters["hrr_completed"])
